@@ -64,6 +64,25 @@ PROPS = {
         "assumptions": ["broker acknowledges every chunk immediately", "a Flush with an already cancelled context may legitimately cut or not cut (Go select picks at random); both are accepted",
                         "interval latency is judged with 2 s slack; a miss is reported only if it exceeds interval + slack"],
     },
+    "C02": {
+        "level": "fault_enumeration",
+        "groups": [g("main", "c02", q=16, t=32, run="^Test(Regress|Prop)$", gomaxprocs=[4, 2, 4, 16])],
+        "parallel": 16,
+        "timeout": {"quick": 900, "thorough": 3600},
+        "rule": ("generated: one reliable upstream (both codecs, every flush policy, default or payload-retaining sent storage), 1-3 concurrent writer "
+                 "programs that keep writing through the outages, broker ack plan {immediate, batched, reordered, duplicated; alias assignment}; 1-3 "
+                 "failures positioned on the message stream: the n-th chunk of a connection is received but not acknowledged / acknowledged and then "
+                 "the link dies, idle cut, cut on the resume request / after the resume response, cut during the redial handshake; per failure a "
+                 "subset of earlier chunks whose acks are withheld; resume answered with 0-2 conflicts first, or refused; instant or paced redial. "
+                 "After the last failure the broker acknowledges everything; the case waits for quiescence (every announced chunk received and "
+                 "acknowledged, ledger quiet), then Close. Oracle: per sequence number all receptions across connections have equal content (payloads "
+                 "included); every chunk announced to the send hook reached the broker with equal content; every accepted point is in an announced "
+                 "chunk; resume requests carry the original stream id and chunks the alias of that connection; close totals; a stream reported "
+                 "closed (closed event with error / stream-closed write error) carries no further obligation. Non-trivial = a cut with an "
+                 "unacknowledged chunk or withheld acks, a cut inside a resume exchange, or >= 2 failures that fired; distinct by case hash."),
+        "assumptions": ["AckTimeout 0 (an ack timeout legitimately drops a stored chunk)", "'eventually' = bounded: 6 s (+1 s per conflict) for quiescence",
+                        "planned cuts are positioned by per-connection chunk ordinals; evidence records planned vs fired cuts"],
+    },
     "C03": {
         "level": "exploration",
         "groups": [g("main", "c03", q=12, t=32, run="^Test(Prop)$", gomaxprocs=[4, 1, 2, 16])],
